@@ -200,9 +200,10 @@ def check_formats(w, rec, act, label, st, expected, ids):
                 bad.append(("asnumpy_mismatch", f"{arr!r} vs {vals!r}"))
         if not any(isinstance(v, dict) for v in vals):
             ser = st.aspandas()
-            if any(isinstance(i, tuple) for i in ids):
-                # pandas turns tuple keys into a MultiIndex (padding with NaN): the labels are
-                # pandas' business, only the order of the values is xgi's
+            if any(isinstance(i, tuple) for i in ids) or pandas_relabels(ids):
+                # pandas turns tuple keys into a MultiIndex (padding with NaN), and an index that
+                # mixes ints and floats into float64 (labels above 2**53 are rounded): the labels
+                # are pandas' business, only the order of the values is xgi's
                 got = [None if (x != x) else x for x in ser.tolist()]
                 if len(got) != len(ids) or any(not eqv(x, expected[i]) for x, i in zip(got, ids)
                                                if expected[i] is not None):
@@ -271,6 +272,13 @@ def random_spec(r, kind):
     name = r.choice(names)
     d = r.choice([None, None, 0, 1, 2, 3])
     return f"edges.{name}" + (f"(degree={d})" if d is not None else "")
+
+
+def pandas_relabels(ids):
+    """an index that holds both ints and floats is coerced to float64 by pandas: an int above
+    2**53 does not survive that"""
+    return any(isinstance(i, float) for i in ids) and \
+        any(isinstance(i, int) and not isinstance(i, bool) and abs(i) > 2 ** 53 for i in ids)
 
 
 def fam_stats(sim, w, rec, act, r):
@@ -361,8 +369,8 @@ def fam_multi(sim, w, rec, act, r):
             if list(arr.shape) != [len(ids), len(names)]:
                 bad.append(("multi_asnumpy_shape", repr(arr.shape)))
             df = ms.aspandas()
-            if any(isinstance(i, tuple) for i in ids):
-                pass  # MultiIndex built by pandas from tuple IDs: not xgi's labels any more
+            if any(isinstance(i, tuple) for i in ids) or pandas_relabels(ids):
+                pass  # MultiIndex / float64 index built by pandas: not xgi's labels any more
             elif list(df.index) != ids:
                 bad.append(("aspandas_order", f"multi-stat frame index {list(df.index)!r} vs view order {ids!r}"))
             elif list(df.columns) != names or any(not eqv(df[nm][n], singles[nm][n]) for nm in names for n in ids):
